@@ -1722,6 +1722,9 @@ func (c *codegen) gen2(k fnKey, flags *fnSig, probe bool) (fnOut, *fnSig) {
 	if len(f.nonNilUsed) > 0 {
 		out = append(out, fmt.Sprintf("/-- `%s` — %s\n    ASSUMES (topic assumption, code_parse.go) that the pointer parameter(s) %s are not nil:\n    `p == nil` ↦ False, `p != nil` ↦ True. -/",
 			gosig, c.pos(fd), strings.Join(f.nonNilUsed, ", ")))
+	} else if notes := ptrAliasNotes[fd]; len(notes) > 0 {
+		out = append(out, fmt.Sprintf("/-- `%s` — %s\n    local pointer aliases eliminated at source level (code_ptralias.go): `%s`. -/",
+			gosig, c.pos(fd), strings.Join(notes, "`, `")))
 	} else {
 		out = append(out, fmt.Sprintf("/-- `%s` — %s -/", gosig, c.pos(fd)))
 	}
